@@ -1,6 +1,7 @@
 \* ONE correct validator (2) against a fully adversarial environment (every other validator's
 \* messages are free inputs): the local C12 obligations (single vote per kind/round, lock rule,
 \* justified votes/commits) for every input sequence with at most MaxRecv deliveries.
+\* Measured: 187,338 distinct / 1,353,096 generated states, depth 9.
 CONSTANTS
   NV = 4
   Power <- MCUnitPower
